@@ -60,6 +60,7 @@ TECHNIQUE = ('Coq model of result counting and accumulation (Run.v) with the sta
              '(Obs.c12_ok); theorems in P_C12.v; correspondence check on generated worlds')
 LEVEL_TEXT = ('Reported ran / failures / errors / skipped, the per-layer summary lines, the Total line and the listed names are compared '
               'with the model and, independently, with numbers recomputed in Coq from the trace of what actually executed, in '
-              'sequential, resumed and parallel mode.')
+              'sequential, resumed and parallel mode.'
+              ' Whole-run theorem (RunLedger.v): reported lists and counts are the exact ledger of the events of all processes (skips: parent only, open finding).')
 LEVEL_NOTE = ('Open finding: skips recorded in subprocess layers are not included in the totals (classified by Obs.c12_skip_finding). '
               '--repeat > 1 and -x are outside the evaluated statement (the model still covers them).')
